@@ -319,6 +319,14 @@ func (g *G) bcall(name string, args ...Expr) (Expr, bool) {
 	v := g.lookup(name)
 	if v == nil {
 		g.useBuiltin(name)
+		if len(args) > 0 && g.chance(10, "bspread") {
+			// the same call with its last k arguments passed through a spread array: every builtin has to
+			// treat Call.vargs like ordinary arguments
+			k := 1 + g.pick(len(args), "bspreadk")
+			g.f("builtin-call-spread")
+			head := append([]Expr{}, args[:len(args)-k]...)
+			return &Call{Fn: Id(name), Args: append(head, &ArrayLit{Elems: append([]Expr{}, args[len(args)-k:]...)}), Spread: true}, true
+		}
 		return &Call{Fn: Id(name), Args: args}, true
 	}
 	if v.K == KFn && v.Sig != nil && v.Sig.Shadow {
